@@ -128,10 +128,12 @@ def tsLoop (p : Int) : Nat → Int → Int → Int → Nat → Int
     else
       tsLoop p n x y (powm z 2 p) (exp / 2)
 
-/-- `ibz_sqrt_mod_p(sqrt, a, p)`; p assumed prime (p ≥ 2 for the model to be meaningful) -/
+/-- `ibz_sqrt_mod_p(sqrt, a, p)`; p assumed prime (p ≥ 2 for the model to be meaningful).
+    Repaired code (fix: a ≡ 0 and p = 2 return `a mod p` before the Legendre test). -/
 def ibzSqrtModP (a p : Int) : Res Int :=
   let amod := a % p
-  if jacobiP amod p ≠ 1 then .fail
+  if amod = 0 ∨ p = 2 then .ok amod
+  else if jacobiP amod p ≠ 1 then .fail
   else if p % 4 = 3 then .ok (powm amod ((p + 1) / 4).toNat p)
   else if p % 8 = 5 then
     let t := powm amod ((p - 1) / 4).toNat p
@@ -153,10 +155,12 @@ def ibzSqrtModP (a p : Int) : Res Int :=
           let x := powm amod ((q + 1) / 2) p
           .ok (tsLoop p e x y z (2 ^ (e - 2)))
 
-/-- `ibz_sqrt_mod_2p` -/
+/-- `ibz_sqrt_mod_2p` (repaired: for p = 2 only a ≡ 0, 1 (mod 4) have a square root modulo 2p = 4) -/
 def ibzSqrtMod2P (a p : Int) : Res Int :=
   match ibzSqrtModP a p with
-  | .ok r => if a % 2 ≠ r % 2 then .ok (r + p) else .ok r
+  | .ok r =>
+    if p = 2 ∧ a % 4 ≥ 2 then .fail
+    else if a % 2 ≠ r % 2 then .ok (r + p) else .ok r
   | .fail => .fail
   | .ub => .ub
 
@@ -212,9 +216,6 @@ def fromBytesLE : List Nat → Nat
   | [] => 0
   | b :: bs => b + 256 * fromBytesLE bs
 
-/-- C `x >> s` on a 64-bit word: defined only for s < 64 -/
-def shr64 (x s : Nat) : Option Nat := if s < 64 then some (x / 2 ^ s) else none
-
 /-- rejection loop; `fuel` ≥ number of chunks in the stream -/
 def randLoop (bmina : Int) (lenBytes lenLimbs mask : Nat) : Nat → List Nat → Res (Int × List Nat)
   | 0, _ => .fail
@@ -241,7 +242,8 @@ def randParams (a b : Int) : RandParams :=
     shift := 64 - lenBits % 64 }
 
 /-- `ibz_rand_interval(rand, a, b)`; returns the value and the unread rest of the stream.
-    `maskOf` is the semantics of the C shift `((mp_limb_t)-1) >> shift`. -/
+    `maskOf` is the mask computation from `shift = 64 - len_bits % 64` (a parameter, so that the range theorem
+    is seen not to depend on it; `none` = undefined shift). -/
 def ibzRandIntervalWith (maskOf : Nat → Option Nat) (a b : Int) (stream : List Nat) : Res (Int × List Nat) :=
   let P := randParams a b
   match maskOf P.shift with
@@ -252,12 +254,8 @@ def ibzRandIntervalWith (maskOf : Nat → Option Nat) (a b : Int) (stream : List
     | .fail => .fail
     | .ub => .ub
 
-/-- the C semantics: a shift by 64 is undefined behaviour -/
+/-- the repaired C: `mask = ((mp_limb_t)-1) >> ((64 - len_bits % 64) % 64)` — the shift count is always < 64 -/
 def ibzRandInterval (a b : Int) (stream : List Nat) : Res (Int × List Nat) :=
-  ibzRandIntervalWith (shr64 (2 ^ 64 - 1)) a b stream
-
-/-- what an x86-64 `shr` does (count taken mod 64) — used only to compare with the non-sanitised binary -/
-def ibzRandIntervalX86 (a b : Int) (stream : List Nat) : Res (Int × List Nat) :=
   ibzRandIntervalWith (fun s => some ((2 ^ 64 - 1) / 2 ^ (s % 64))) a b stream
 
 /-- `ibz_rand_interval_i(rand, a, b)` (int64 arguments) -/
